@@ -68,6 +68,13 @@ func StartPool(extra ...string) (*PoolProc, error) {
 // StartPoolArgs launches `vipnode pool <args> --bind <free loopback port>` and waits until it
 // answers vipnode_ping.
 func StartPoolArgs(poolArgs ...string) (*PoolProc, error) {
+	return StartPoolHome("", poolArgs...)
+}
+
+// StartPoolHome is StartPoolArgs with the process' HOME set to home (kept when the process is
+// stopped; XDG_DATA_HOME unset, so that the binary's default data directory lies under it). With
+// home == "" a throw-away HOME is used.
+func StartPoolHome(home string, poolArgs ...string) (*PoolProc, error) {
 	bin := VipnodeBin()
 	if bin == "" {
 		return nil, fmt.Errorf("VERIF_VIPNODE_BIN not set")
@@ -79,7 +86,16 @@ func StartPoolArgs(poolArgs ...string) (*PoolProc, error) {
 		p.cmd = exec.Command(bin, args...)
 		p.cmd.Stdout, p.cmd.Stderr = p.out, p.out
 		p.cmd.SysProcAttr = &syscall.SysProcAttr{Setpgid: true, Pdeathsig: syscall.SIGKILL}
-		p.cmd.Env = append(os.Environ(), "HOME="+Scratch("home-"))
+		if home == "" {
+			p.cmd.Env = append(os.Environ(), "HOME="+Scratch("home-"))
+		} else {
+			for _, e := range os.Environ() {
+				if !strings.HasPrefix(e, "XDG_DATA_HOME=") && !strings.HasPrefix(e, "HOME=") {
+					p.cmd.Env = append(p.cmd.Env, e)
+				}
+			}
+			p.cmd.Env = append(p.cmd.Env, "HOME="+home)
+		}
 		if err := p.cmd.Start(); err != nil {
 			return nil, err
 		}
